@@ -1,5 +1,6 @@
 import Lean.Data.Json
 import SpoxModel.Model.Custom
+import SpoxModel.Model.CustomInline
 import SpoxModel.Drv.C11
 /-! Line-protocol handler for C18 (model side of the correspondence).
 
@@ -67,6 +68,61 @@ def handleInfer (req : Json) : Except String Json := do
         ("value", match o.value with | some v => Json.str v | none => Json.null)]).toArray),
     ("warns", Json.arr ((warns ++ vw).map warnJson).toArray)]
 
+/-- `{"kind":"adapt","imports":[[d,v],…],"domains":[…],"target":n}` : `CustomInline.decide` -/
+def handleAdapt (req : Json) : Except String Json := do
+  let impsJ ← req.getObjValAs? (List Json) "imports"
+  let imps ← impsJ.mapM fun j => match j with
+    | Json.arr #[Json.str d, v] => do return (d, ← fromJson? (α := Nat) v)
+    | _ => throw "bad import"
+  let doms ← req.getObjValAs? (List String) "domains"
+  let target ← req.getObjValAs? Nat "target"
+  match CustomInline.decide { imports := imps, nodeDomains := doms } target with
+  | .keep => return Json.mkObj [("decision", "keep")]
+  | .convert s t => return Json.mkObj [("decision", "convert"), ("src", toJson s), ("tgt", toJson t)]
+
+/-- `{"kind":"results","thook":…,"vhook":…,"check":…,"req":[[name,key],…],"concrete":[…],"rc":bool}` :
+    `Custom.resultInfo` on the requested outputs of a freshly inferred custom node. -/
+def handleResults (req : Json) : Except String Json := do
+  let thook ← pairs (← req.getObjVal? "thook")
+  let vhook ← pairs (← req.getObjVal? "vhook")
+  let pass ← pairs (← req.getObjVal? "check")
+  let check : String → String → Bool := fun t v => pass.contains (t, v)
+  let concrete ← req.getObjValAs? (List String) "concrete"
+  let rc ← req.getObjValAs? Bool "rc"
+  let rq ← pairs (← req.getObjVal? "req")
+  match resultInfo (fun t => concrete.contains t) rc
+      (rq.map fun p => (p.1, outAfter check thook vhook p.2)) with
+  | .ok l => return Json.mkObj [("ok", Json.arr (l.map fun i => Json.arr #[Json.str i.1, Json.str i.2]).toArray)]
+  | .error (.untyped n) => return Json.mkObj [("err", "untyped"), ("name", n)]
+  | .error (.notConcrete n) => return Json.mkObj [("err", "notConcrete"), ("name", n)]
+
+/-- `{"kind":"construct","decl":[[field,isVariadic],…],"nvar":n,"flags":[infer,prop,validate],
+     "thook":…,"vhook":…,"check":…,"level":…,"concrete":…,"inTypes":…}` : `Custom.construct`. -/
+def handleConstruct (req : Json) : Except String Json := do
+  let declJ ← req.getObjValAs? (List Json) "decl"
+  let decl ← declJ.mapM fun j => match j with
+    | Json.arr #[Json.str n, Json.bool b] => pure (n, b)
+    | _ => throw "bad decl"
+  let nvar ← req.getObjValAs? Nat "nvar"
+  let fl ← req.getObjValAs? (List Bool) "flags"
+  let flags : Flags := { inferTypes := fl.getD 0 true, propValues := fl.getD 1 true, validate := fl.getD 2 true }
+  let thook ← pairs (← req.getObjVal? "thook")
+  let vhook ← pairs (← req.getObjVal? "vhook")
+  let pass ← pairs (← req.getObjVal? "check")
+  let check : String → String → Bool := fun t v => pass.contains (t, v)
+  let level ← req.getObjValAs? Nat "level"
+  let concrete ← req.getObjValAs? (List String) "concrete"
+  let inTypesJ ← req.getObjValAs? (List Json) "inTypes"
+  let inTypes : List (Option String) := inTypesJ.map fun
+    | Json.str s => some s
+    | _ => none
+  let (res, warns) := construct check thook vhook flags level (fun t => concrete.contains t) inTypes decl nvar
+  return Json.mkObj [
+    ("outs", Json.arr (res.map fun o => Json.mkObj [("key", o.key),
+        ("type", match o.type with | some t => Json.str t | none => Json.null),
+        ("value", match o.value with | some v => Json.str v | none => Json.null)]).toArray),
+    ("warns", Json.arr (warns.map warnJson).toArray)]
+
 def handle (req : Json) : Json :=
   match (do
     let kind ← req.getObjValAs? String "kind"
@@ -74,6 +130,9 @@ def handle (req : Json) : Json :=
     | "node" => handleNode req
     | "opsets" => handleOpsets req
     | "infer" => handleInfer req
+    | "adapt" => handleAdapt req
+    | "results" => handleResults req
+    | "construct" => handleConstruct req
     | _ => throw "unknown kind") with
   | .ok j => j
   | .error e => Json.mkObj [("error", e)]
